@@ -5,6 +5,8 @@
      collector, a NestedError) or of a value created in the same function, or
    - an element of the receiver itself when the receiver is a map or slice type (ErrVals) or of
      a map / slice created in the same function, or
+   - `*p = v` where p is a parameter of an unexported function that is only ever called with
+     `&x`, x a plain variable of the caller (a result handed back through a pointer), or
    - inside parser/nester_error.go only: an element of an error-value map reached without a
      type assertion or call (those maps are made by the error code, never the input object). *)
 From Coq Require Import List String Bool.
@@ -16,7 +18,8 @@ Definition mem (x : string) (l : list string) : bool := existsb (String.eqb x) l
 
 Definition private_target (site : string * string * string * string * string) : bool :=
   let '(file, _, _, shape, root) := site in
-  if mem shape ["field"; "deref"] then mem root ["receiver"; "fresh-local"]
+  if mem shape ["field"] then mem root ["receiver"; "fresh-local"]
+  else if mem shape ["deref"] then mem root ["receiver"; "fresh-local"; "out-param"]
   else if mem shape ["index"; "delete"; "clear"; "copy"] then
     mem root ["receiver"; "fresh-local"]
     || (String.eqb file "parser/nester_error.go" && mem root ["receiver-field"; "local"; "param"])
